@@ -283,6 +283,101 @@ impl SignatureCache {
         assert(sb.subrange(33, 1985) =~= pk_bytes(&b.public_key));
     }
 
+
+    /// x1 + y1 == x2 + y2 with equally long heads splits into equal heads and equal tails.
+    pub proof fn lemma_concat_split(x1: Seq<u8>, y1: Seq<u8>, x2: Seq<u8>, y2: Seq<u8>)
+        requires x1 + y1 == x2 + y2, x1.len() == x2.len(),
+        ensures x1 == x2, y1 == y2,
+    {
+        let a = x1 + y1;
+        let b = x2 + y2;
+        assert(a.subrange(0, x1.len() as int) =~= x1);
+        assert(b.subrange(0, x2.len() as int) =~= x2);
+        assert(a.subrange(x1.len() as int, a.len() as int) =~= y1);
+        assert(b.subrange(x2.len() as int, b.len() as int) =~= y2);
+    }
+
+    /// Documented name bound (what construction accepts): absent, or 1..=255 bytes.
+    pub open spec fn name_ok(name: Option<String>) -> bool {
+        name.is_some() ==> 1 <= str_bytes(&name.unwrap()).len() <= 255
+    }
+    pub open spec fn head_of(r: &PeerDHTRecord) -> Seq<u8> {
+        seq![r.version] + r.user_id.hash@ + pk_bytes(&r.public_key)
+    }
+    pub open spec fn tail5(r: &PeerDHTRecord) -> Seq<u8> { be64(r.timestamp) + be32(r.ttl) }
+    pub open spec fn tail4(r: &PeerDHTRecord) -> Seq<u8> { enc_endpoints(r.endpoints@).unwrap() + tail5(r) }
+    pub open spec fn tail3(r: &PeerDHTRecord) -> Seq<u8> { be32(enc_endpoints(r.endpoints@).unwrap().len() as u32) + tail4(r) }
+    pub open spec fn tail2(r: &PeerDHTRecord) -> Seq<u8> { name_part(r.name) + tail3(r) }
+    pub open spec fn tail1(r: &PeerDHTRecord) -> Seq<u8> { be64(r.sequence_number) + tail2(r) }
+
+    /// The canonical encoding, re-associated: fixed-length head, then the nested tails.
+    pub proof fn lemma_signable_shape(r: &PeerDHTRecord)
+        ensures signable(r) == head_of(r) + tail1(r), head_of(r).len() == 1985,
+    {
+        assert(signable(r) =~= head_of(r) + tail1(r));
+        assert(r.user_id.hash@.len() == 32);
+        assert(pk_bytes(&r.public_key).len() == 1952);
+    }
+
+    /// The length-prefixed name is uniquely decodable under the documented bound.
+    pub proof fn lemma_name_part_injective(n1: Option<String>, t1: Seq<u8>, n2: Option<String>, t2: Seq<u8>)
+        requires name_part(n1) + t1 == name_part(n2) + t2, name_ok(n1), name_ok(n2),
+        ensures n1 == n2, t1 == t2,
+    {
+        let b1 = match n1 { Some(n) => str_bytes(&n), None => Seq::<u8>::empty() };
+        let b2 = match n2 { Some(n) => str_bytes(&n), None => Seq::<u8>::empty() };
+        let l1 = be32(b1.len() as u32);
+        let l2 = be32(b2.len() as u32);
+        assert(name_part(n1) =~= l1 + b1);
+        assert(name_part(n2) =~= l2 + b2);
+        assert(name_part(n1) + t1 =~= l1 + (b1 + t1));
+        assert(name_part(n2) + t2 =~= l2 + (b2 + t2));
+        lemma_concat_split(l1, b1 + t1, l2, b2 + t2);
+        assert(b1.len() as u32 == b2.len() as u32);
+        assert(b1.len() == b2.len());
+        lemma_concat_split(b1, t1, b2, t2);
+        if n1.is_some() {
+            assert(b1.len() >= 1);
+            assert(n2.is_some());
+            assert(str_bytes(&n1.unwrap()) == str_bytes(&n2.unwrap()));
+        } else {
+            assert(b2.len() == 0);
+            assert(n2.is_none());
+        }
+    }
+
+    /// "the signature covers every field of the record as presented": two records (within the
+    /// documented name bound, endpoints encodable) with the same canonical encoding agree on EVERY
+    /// field the statement lists -- id, key, sequence number, name, endpoints, timestamp, lifetime
+    /// (and version).
+    pub proof fn lemma_signable_injective(a: &PeerDHTRecord, b: &PeerDHTRecord)
+        requires
+            signable(a) == signable(b), encodable(a), encodable(b), name_ok(a.name), name_ok(b.name),
+            enc_endpoints(a.endpoints@).unwrap().len() <= u32::MAX, enc_endpoints(b.endpoints@).unwrap().len() <= u32::MAX,
+        ensures
+            a.version == b.version, a.user_id == b.user_id, a.public_key == b.public_key, // @C09/signable/covers_version_id_and_key
+            a.sequence_number == b.sequence_number, // @C09/signable/covers_sequence_number
+            a.name == b.name, // @C09/signable/covers_name
+            a.endpoints@ == b.endpoints@, // @C09/signable/covers_endpoints
+            a.timestamp == b.timestamp, // @C09/signable/covers_timestamp
+            a.ttl == b.ttl, // @C09/signable/covers_lifetime
+    {
+        lemma_signable_head(a, b);
+        lemma_signable_shape(a);
+        lemma_signable_shape(b);
+        lemma_concat_split(head_of(a), tail1(a), head_of(b), tail1(b));
+        lemma_concat_split(be64(a.sequence_number), tail2(a), be64(b.sequence_number), tail2(b));
+        lemma_name_part_injective(a.name, tail3(a), b.name, tail3(b));
+        let ea = enc_endpoints(a.endpoints@).unwrap();
+        let eb = enc_endpoints(b.endpoints@).unwrap();
+        lemma_concat_split(be32(ea.len() as u32), tail4(a), be32(eb.len() as u32), tail4(b));
+        assert(ea.len() as u32 == eb.len() as u32);
+        assert(ea.len() == eb.len());
+        lemma_concat_split(ea, tail5(a), eb, tail5(b));
+        assert(enc_endpoints(a.endpoints@) == enc_endpoints(b.endpoints@));
+        lemma_concat_split(be64(a.timestamp), be32(a.ttl), be64(b.timestamp), be32(b.ttl));
+    }
+
     /// Two records that map to the same cache key have the same direct-verification verdict
     /// (under the ideal-hash contract): the key covers everything the verdict depends on.
     pub broadcast proof fn lemma_same_key_same_verdict(a: &PeerDHTRecord, b: &PeerDHTRecord)
